@@ -35,6 +35,8 @@ pub enum ModelParseError {
     StreamNotFound,
     #[error("Position was not found")]
     PositionNotFound,
+    #[error("Position {0}-{1} is outside of the data section")]
+    PositionOutOfRange(usize, usize),
 
     #[error("USE_GV is true, but positions for GV is not set")]
     UseGvError,
@@ -155,7 +157,7 @@ fn parse_data_section(
                 .map(|win| {
                     Ok(
                         all_consuming(terminated(WindowParser::parse_window_row, ParseTarget::sp))
-                            .parse(&input[win.0..=win.1])?
+                            .parse(slice_data(input, *win)?)?
                             .1,
                     )
                 })
@@ -173,17 +175,25 @@ fn parse_data_section(
     Ok((duration_model, stream_models))
 }
 
+/// Get the part of the data section designated by an (inclusive) position range in the header.
+fn slice_data(input: &[u8], range: (usize, usize)) -> Result<&[u8], ModelParseError> {
+    let out_of_range = ModelParseError::PositionOutOfRange(range.0, range.1);
+    match range.1.checked_add(1) {
+        Some(end) => input.get(range.0..end).ok_or(out_of_range),
+        None => Err(out_of_range),
+    }
+}
+
 fn parse_all<'a, F>(
     f: F,
     range: (usize, usize),
-) -> impl FnOnce(&'a [u8]) -> IResult<&'a [u8], F::Output, F::Error>
+) -> impl FnOnce(&'a [u8]) -> Result<(&'a [u8], F::Output), ModelParseError>
 where
-    F: Parser<&'a [u8]>,
-    F::Error: ParseError<&'a [u8]> + ContextError<&'a [u8]>,
+    F: Parser<&'a [u8], Error = nom::error::Error<&'a [u8]>>,
 {
     use nom::combinator::all_consuming;
 
-    move |input: &'a [u8]| all_consuming(f).parse(&input[range.0..range.1 + 1])
+    move |input: &'a [u8]| Ok(all_consuming(f).parse(slice_data(input, range)?)?)
 }
 
 #[cfg(test)]
